@@ -26,7 +26,22 @@ def run(out, prelude):
         out.infra.append("race suite timed out")
         return
     if p.returncode != 0:
-        out.infra.append("race suite failed: " + (p.stderr or "")[-1500:])
+        err = p.stderr or ""
+        # the Go runtime aborts on an unsynchronised map access it notices itself ("fatal error: concurrent map
+        # writes" and friends) and the race detector's own reports precede it: with library frames in the trace that
+        # IS the race, with the goroutine dump as the failing schedule - not an infrastructure problem
+        m = re.search(r"fatal error: (concurrent map [a-z ]+)", err)
+        frames = re.findall(r"github.com/volatiletech/authboss/v3[^\s(]*\(", err)
+        if m and frames:
+            out.violations.append(dict(sig="C20:fatal:" + frames[0].rstrip("("),
+                                       what="the runtime aborted with '%s' in library code (%s)" % (m.group(1), frames[0].rstrip("(")),
+                                       replay=dict(clients=clients, runs=runs, report=err[err.find("fatal error"):][:6000])))
+            for r in re.split(r"(?m)^WARNING: DATA RACE", err)[1:3]:
+                if "github.com/volatiletech/authboss" in r:
+                    out.violations[-1]["replay"]["race_report"] = r[:3000]
+                    break
+            return
+        out.infra.append("race suite failed: " + err[-1500:])
         return
     res = vlib.read_jsonl(path)
     os.remove(path)
